@@ -1377,6 +1377,13 @@ func (h *H) replay(path string) {
 			return
 		}
 	}
+	if fam, _ := generic["family"].(string); fam == "name" {
+		var nc Case
+		if err := json.Unmarshal(rf.Case, &nc); err == nil {
+			h.replayName(nc)
+		}
+		return
+	}
 	if fam, _ := generic["family"].(string); fam == "rsa" {
 		h.replayRSA(generic)
 		return
@@ -1515,6 +1522,7 @@ func main() {
 		h.kwHuge()
 		h.padDirect()
 		h.cbcHmacDirect()
+		nameBoundaries(h, getKeys())
 	}
 	tSym := time.Since(t0)
 	obs := runAsym(res, f.Tier, h.rng.Fork(), f.Search)
